@@ -6,6 +6,7 @@ valid wire messages and compares field by field with expectations derived from t
 
 from __future__ import annotations
 
+import collections
 import dataclasses
 import math
 import os
@@ -368,6 +369,21 @@ def check_floats(ctx: Ctx) -> None:
     res.sig("floats-specials", len(specials))
 
 
+class _FrozenDict(dict):   # noqa: FURB189
+    """A dict subclass (as read-only config/state containers are)."""
+
+    def __setitem__(self, k: Any, v: Any) -> None:
+        raise TypeError("read-only")
+
+
+def _remap(v: Any, mk: Any) -> Any:
+    if isinstance(v, dict):
+        return mk((k, _remap(x, mk)) for k, x in v.items())
+    if isinstance(v, list):
+        return [_remap(x, mk) for x in v]
+    return v
+
+
 def scribble(obj: Any, depth: int = 0) -> int:
     """Modify every mutable container reachable from a model instance in place; returns how many were touched."""
     n = 0
@@ -467,6 +483,15 @@ def shard(ctx: Ctx) -> None:
                     res.count("round_trips_compared")
                     if not same(x, y):
                         res.violation(f"C14/round-trip/{m.__name__}", f"[{label}] from_dict(to_dict(x)) != x for {m.__name__}", {"pair": [w.__name__, m.__name__], "label": label})
+                    elif res.evaluations % 3 == 0:
+                        # the stored form read back by another decoder: every mapping an OrderedDict (json object_pairs_hook) or a read-only dict
+                        # subclass - still mappings, still the same value
+                        for mk in (collections.OrderedDict, _FrozenDict):
+                            y2 = m.from_dict(_remap(x.to_dict(), mk))
+                            res.count("round_trips_compared/dict-subclass")
+                            if not same(x, y2):
+                                res.violation(f"C14/round-trip/{m.__name__}", f"[{label}] from_dict(to_dict(x) with every mapping a {mk.__name__}) != x for {m.__name__}",
+                                              {"pair": [w.__name__, m.__name__], "label": label, "mapping": mk.__name__})
                 except Exception as e:  # noqa: BLE001
                     res.violation(f"C14/round-trip-raised/{m.__name__}", f"[{label}] to_dict/from_dict raised {e!r}", {"pair": [w.__name__, m.__name__], "label": label})
             # conversions must be independent of what a consumer did to EARLIER results: scribble over every mutable container of one result
